@@ -101,6 +101,12 @@ Proof. vm_compute. reflexivity. Qed.
 (* the backlog is not a place where requests get lost: while the gap is open, a second request carrying a number that
    is already parked is not intercepted by the dialog layer at all - the table stays as it is, the parked request keeps
    its place, the newcomer goes on to the following layers and the endpoint's default answer *)
+(* a usage registered later joins the ones that are there: none of them is replaced, the dialog's CSeq state is untouched *)
+Theorem C10_register_appends_usage : forall es k u e,
+  entries_find k es = Some e ->
+  exists e', entries_find k (fst (layer_step es (AddUsage k u))) = Some e' /\ e_usages e' = e_usages e ++ [u] /\ e_st e' = e_st e.
+Proof. exact add_appends_usage. Qed.
+
 Theorem C10_backlog_guard : dlg_backlog_no_overwrite = true.
 Proof. reflexivity. Qed.
 
